@@ -7,6 +7,7 @@
 //! usage: c13 exh <bound> <shard> <nshards> <seed> <maxexecs>     all schedules <= bound preemptions of the program pool
 //!        c13 rnd <count> <shard> <nshards> <seed>                random programs, random schedules
 //!        c13 seq <maxlen> <shard> <nshards>                       all sequential histories (one thread) up to maxlen ops
+//!        c13 exhp <bound> <maxexecs> <program>                    all schedules <= bound preemptions of ONE given program (search phase)
 //!        c13 one <program> <schedule>                             replay, e.g. one "cs0|cs0" 0,1,1,1,0,0,0
 //!        c13 posix <program> <schedule>                           replay on posix_shared_memory storage (observations only)
 //! program: threads separated by '|', ops by ',': cs<v> cr<v> (create sender/receiver with
@@ -360,6 +361,15 @@ fn main() {
                 let mut visit = |ex: &Exec| { let name = cur.borrow().unwrap(); let e = finish_pl(&name); emit(&prog, ex, e, &mut **outcell.borrow_mut()); };
                 explore(bound, maxexecs, &mut mk, &mut visit);
             }
+        }
+        "exhp" => {
+            let bound: usize = a[2].parse().unwrap(); let maxexecs: usize = a[3].parse().unwrap();
+            let prog = parse_prog(&a[4]);
+            let cur: std::cell::RefCell<Option<FileName>> = std::cell::RefCell::new(None);
+            let mut mk = || { let name = fresh_name(); let b = bodies_pl(&name, &prog); *cur.borrow_mut() = Some(name); b };
+            let outcell = std::cell::RefCell::new(&mut out);
+            let mut visit = |ex: &Exec| { let name = cur.borrow().unwrap(); let e = finish_pl(&name); emit(&prog, ex, e, &mut **outcell.borrow_mut()); };
+            explore(bound, maxexecs, &mut mk, &mut visit);
         }
         "rnd" => {
             let count: u64 = a[2].parse().unwrap(); let shard: u64 = a[3].parse().unwrap(); let nsh: u64 = a[4].parse().unwrap(); let seed: u64 = a[5].parse().unwrap();
